@@ -259,6 +259,30 @@ pub fn run(ctx: &'static Ctx) -> (&'static str, Value, Vec<&'static str>) {
         })
         .reduce(Stats::new, Stats::merge);
     let stats = stats.merge(lstats);
+    // short-read environment for the type-31 decoder
+    let mut ssr = Stats::new();
+    {
+        use crate::guard::{short_read_check, SplitReader};
+        for (kinds, layout) in [(vec![0usize, 1, 2, 3], 0u8), (vec![3, 7, 0], 3), ((0..10).collect::<Vec<_>>(), 2)] {
+            let c = Case { kinds: kinds.clone(), layout, gates: 9, ws: 16, plan: 0, start: 0, phys: vec![], gaps: vec![] };
+            let (bytes, blocks, _) = build(&c);
+            // digest = per-offset mismatch counts against the encoded bytes (NaN-safe, unlike PartialEq)
+            let digest = |m: drd::Message| -> Vec<usize> {
+                let mut d = vec![header_mismatches(&m.header, &bytes).len()];
+                for k in 0..10 {
+                    match kinds.iter().position(|x| *x == k) {
+                        Some(i) => d.push(block_mismatches(&m, k, &blocks[i].bytes).len()),
+                        None => d.push(if present(&m, k) { 99 } else { 0 }),
+                    }
+                }
+                d
+            };
+            let n = short_read_check(ctx, "decode_digital_radar_data", &bytes, true, |r: &mut SplitReader| drd::decode_digital_radar_data(r).ok().map(&digest), |shape| json!({"kinds": kinds, "layout": layout, "gates": 9, "ws": 16, "plan": 0, "start": 0, "short_read_boundaries": shape.0, "max_chunk": shape.1}));
+            ssr.evaluations += n;
+            ssr.count("short_read_shapes", n);
+        }
+    }
+    let stats = stats.merge(ssr);
     // distinguishability obligation: any two same-width header fields differ in at least one plan
     let h0 = t31_body(&plan_header(0), &[], &Layout::default()).0;
     let h1 = t31_body(&plan_header(1), &[], &Layout::default()).0;
